@@ -2,7 +2,7 @@
 Bounded-exhaustive enumerator of FPy programs in the FPCore-expressible subset
 for C12 (translation to and from FPCore preserves meaning).
 
-Nothing is sampled.  Two families:
+Nothing is sampled.  Two families (plus four hand-written shapes, family X):
 
 K  *kernel grammar*: every block-structure tree with at most N nodes and depth
    at most D over the node kinds
@@ -119,35 +119,6 @@ def sink(items):
             it = ('for', it[1], it[2], sink(it[3]))
         out = [it] + out
     return out
-
-
-def features(items, enclosing=None, acc=None):
-    """shape facts used in signatures"""
-    if acc is None:
-        acc = {'withs': 0, 'max_with_depth': 0, 'stmt_after_with': False, 'kinds': set()}
-
-    def walk(block, depth):
-        for i, it in enumerate(block):
-            k = it[0]
-            if k == 'with':
-                acc['withs'] += 1
-                acc['max_with_depth'] = max(acc['max_with_depth'], depth + 1)
-                if i + 1 < len(block):
-                    acc['stmt_after_with'] = True
-                walk(it[2], depth + 1)
-            elif k == 'if':
-                acc['kinds'].add('if')
-                walk(it[2], depth)
-                if it[3] is not None:
-                    walk(it[3], depth)
-            elif k == 'while':
-                acc['kinds'].add('while')
-                walk(it[2], depth)
-            elif k == 'for':
-                acc['kinds'].add('for')
-                walk(it[3], depth)
-    walk(items, 0)
-    return acc
 
 
 class Prog:
